@@ -1,5 +1,6 @@
 import ZV.Proofs.Der0Int
 import ZV.Proofs.Der0CB
+import ZV.Proofs.TimeInv
 /-!
   C19 — strict DER decoding is canonical in both ASN.1 codecs.
 
@@ -7,6 +8,9 @@ import ZV.Proofs.Der0CB
   for ALL byte strings, where `decode`/`encode` are the executable models of the
   zcrypto functions in `ZV.Model.Der0` (tied to the Go code by the T2 stream `c19`).
   `EA` = encoding/asn1, `CB` = cryptobyte (with the fixes for D2/D28 in `readBase128Int`).
+  Time values (last section): the decoders and encoders of `ZV.Model.Time` (`time.Parse` / `Time.Format` for the
+  three ASN.1 layouts are modelled there, tied to the Go code by the T2 streams `c18 tp/tf/tc/td/tpc/tac` and
+  `c19 cb-gtime/cb-utime`).
 -/
 open ZV ZV.Der0
 namespace ZV.C19
@@ -437,5 +441,294 @@ theorem cb_element_injective (s₁ s₂ : Bytes) (e₁ e₂ : CB.Elem)
   rw [a₁] at a₂
   simp only [Res.ok.injEq] at a₂
   rw [b₁, b₂, a₂, hr]
+
+/-! ## time values -/
+open ZV.Time in
+/-- **cryptobyte GeneralizedTime.**  For ALL byte strings: whatever `ReadASN1GeneralizedTime` accepts,
+    `AddASN1GeneralizedTime` of the decoded time writes back, byte for byte (one identifier octet, minimal
+    definite length, the very text) — and it does not refuse the value. -/
+theorem cb_gtime_canonical (s : Bytes) (t : GoTime) (rest : Bytes)
+    (h : Time.CB.readGeneralizedTime s = .ok (t, rest)) :
+    ∃ pre, Time.CB.addGeneralizedTime t = .ok pre ∧ s = pre ++ rest := by
+  unfold Time.CB.readGeneralizedTime at h
+  split at h
+  · rename_i body rest' hr
+    split at h
+    · simp at h
+    · rename_i res hp
+      split at h
+      · simp at h
+      · rename_i hfmt
+        simp only [Res.ok.injEq, Prod.mk.injEq] at h
+        obtain ⟨h1, h2⟩ := h
+        subst h1; subst h2
+        have hfmt' : format layoutGen res = body := by simpa using hfmt
+        obtain ⟨pre, hq1, hq2⟩ := cb_readASN1Tag_canonical hr
+        have p := parse_gen_facts hp
+        have hy : ¬ (res.year < 0 ∨ res.year > 9999) := by have := p.year_lo; have := p.year_hi; omega
+        exact ⟨pre, by simp only [Time.CB.addGeneralizedTime, hy, if_false, hfmt']; exact hq1, hq2⟩
+  · simp at h
+  · simp at h
+
+example : Time.CB.readGeneralizedTime
+    [0x18, 0x13, 0x32, 0x30, 0x32, 0x34, 0x30, 0x32, 0x32, 0x39, 0x32, 0x33, 0x35, 0x39, 0x35, 0x39, 0x2b, 0x30, 0x35, 0x33,
+      0x30, 0x05, 0x00] = .ok ({ unix := 1709231399, off := 19800 }, [0x05, 0x00]) := by decide +kernel
+
+open ZV.Time in
+/-- what an accepted GeneralizedTime is: year 0..9999 in its zone, zone a whole number of minutes of at most
+    25 hours (`hh ≤ 24`, `mm ≤ 60` pass `time.Parse`; the re-serialisation test removes `mm = 60`). -/
+theorem cb_gtime_accepts_only (s : Bytes) (t : GoTime) (rest : Bytes)
+    (h : Time.CB.readGeneralizedTime s = .ok (t, rest)) :
+    0 ≤ t.year ∧ t.year ≤ 9999 ∧ ∃ k : Int, t.off = 60 * k ∧ -1500 ≤ k ∧ k ≤ 1500 := by
+  unfold Time.CB.readGeneralizedTime at h
+  split at h
+  · split at h
+    · simp at h
+    · rename_i res hp
+      split at h
+      · simp at h
+      · simp only [Res.ok.injEq, Prod.mk.injEq] at h
+        obtain ⟨h1, _⟩ := h
+        subst h1
+        have p := parse_gen_facts hp
+        exact ⟨p.year_lo, p.year_hi, p.zone⟩
+  · simp at h
+  · simp at h
+
+open ZV.Time in
+/-- **encoding/asn1 GeneralizedTime** (strict mode): an accepted content is exactly what
+    `appendGeneralizedTime` writes for the decoded time. -/
+theorem ea_gentime_canonical (s : Bytes) (t : GoTime) (h : EA.parseGeneralizedTime false s = .ok t) :
+    EA.appendGeneralizedTime t = .ok s := by
+  unfold EA.parseGeneralizedTime at h
+  split at h
+  · simp at h
+  · rename_i ret hp
+    split at h
+    · simp at h
+    · rename_i hre
+      simp only [Res.ok.injEq] at h
+      subst h
+      have hfmt : format layoutGen ret = s := by simpa [EA.reserialises] using hre
+      rw [appendGeneralizedTime_eq_format (parse_gen_facts hp), hfmt]
+
+example : ZV.Time.EA.parseGeneralizedTime false
+    [0x31, 0x39, 0x30, 0x30, 0x30, 0x32, 0x32, 0x38, 0x32, 0x33, 0x35, 0x39, 0x35, 0x39, 0x5a] =
+    .ok { unix := -2203891201, off := 0 } := by decide +kernel
+
+open ZV.Time in
+/-- **encoding/asn1 UTCTime** (strict mode): an accepted content in the form WITH seconds (the form without
+    seconds is tried first; the encoder never writes it) is exactly what `appendUTCTime` writes for the decoded
+    time, including the 19YY / 20YY century choice. -/
+theorem ea_utctime_canonical (s : Bytes) (t : GoTime) (h : EA.parseUTCTime false s = .ok t)
+    (hsec : parse layoutUTCMin s = none) : EA.appendUTCTime t = .ok s := by
+  unfold EA.parseUTCTime at h
+  simp only [hsec] at h
+  split at h
+  · simp at h
+  · rename_i layout ret hr
+    split at hr
+    · rename_i ret' hp
+      simp only [Option.some.injEq, Prod.mk.injEq] at hr
+      obtain ⟨hl, hret⟩ := hr
+      subst hl; subst hret
+      have p := parse_utcsec_facts hp
+      split at h
+      · simp at h
+      · rename_i hre
+        have hfmt : format layoutUTCSec ret' = s := by simpa [EA.reserialises] using hre
+        split at h
+        · rename_i hy
+          simp only [Res.ok.injEq] at h
+          subst h
+          rw [appendUTCTime_minus100 p hy p.year_hi, hfmt]
+        · rename_i hy
+          simp only [Res.ok.injEq] at h
+          subst h
+          rw [appendUTCTime_eq_format p (by have := p.year_lo; omega) (by omega), hfmt]
+    · simp at hr
+
+example : ZV.Time.EA.parseUTCTime false [0x35, 0x30, 0x30, 0x31, 0x30, 0x31, 0x30, 0x30, 0x30, 0x30, 0x30, 0x30, 0x5a] =
+    .ok { unix := -631152000, off := 0 } ∧
+    ZV.Time.parse ZV.Time.layoutUTCMin [0x35, 0x30, 0x30, 0x31, 0x30, 0x31, 0x30, 0x30, 0x30, 0x30, 0x30, 0x30, 0x5a] = none := by
+  decide +kernel
+
+open ZV.Time in
+theorem utc_tail_window {perm : Bool} {layout : List Std} {ret t : GoTime} {s : Bytes} (p : Parsed ret 1969 2068)
+    (h : (if (!EA.reserialises perm layout ret s) = true then Res.err
+          else if ret.year ≥ 2050 then Res.ok (addYears ret (-100)) else Res.ok ret) = Res.ok t) :
+    1950 ≤ t.year ∧ t.year < 2050 := by
+  split at h
+  · simp at h
+  · split at h
+    · rename_i hy
+      simp only [Res.ok.injEq] at h
+      subst h
+      have := (addYears_minus100 ret hy p.year_hi).1
+      have hyr : (addYears ret (-100)).year = ret.year + -100 := by simp only [GoTime.year, this]
+      rw [hyr]
+      have := p.year_hi
+      omega
+    · rename_i hy
+      simp only [Res.ok.injEq] at h
+      subst h
+      have := p.year_lo
+      omega
+
+open ZV.Time in
+/-- the decoded UTCTime lies in the window 1950..2049 (years 50..68 are moved back one century), in either
+    parsing mode -/
+theorem ea_utctime_window (perm : Bool) (s : Bytes) (t : GoTime) (h : EA.parseUTCTime perm s = .ok t) :
+    1950 ≤ t.year ∧ t.year < 2050 := by
+  unfold EA.parseUTCTime at h
+  cases hmin : parse layoutUTCMin s with
+  | some r1 =>
+    simp only [hmin] at h
+    exact utc_tail_window (parse_utcmin_facts hmin) h
+  | none =>
+    cases hsec : parse layoutUTCSec s with
+    | some r1 =>
+      simp only [hmin, hsec] at h
+      exact utc_tail_window (parse_utcsec_facts hsec) h
+    | none => simp [hmin, hsec] at h
+
+open ZV.Time in
+/-- **cryptobyte `ReadASN1UTCTime` = readASN1 + encoding/asn1's strict `parseUTCTime`**, for ALL byte strings:
+    the two functions try the layouts with and without seconds in opposite order, but no text parses under both
+    (after YYMMDDhhmm the one wants a digit, the other `Z`, `+` or `-`), so they accept the same contents with the
+    same value. -/
+theorem cb_utctime_eq_ea (s : Bytes) :
+    Time.CB.readUTCTime s =
+      (match CB.readASN1Tag s 0x17 with
+       | .ok (body, rest) =>
+         (match EA.parseUTCTime false body with
+          | .ok t => .ok (t, rest)
+          | .err => .err
+          | .panic => .panic)
+       | .err => .err
+       | .panic => .panic) := by
+  unfold Time.CB.readUTCTime
+  cases hr : CB.readASN1Tag s 0x17 with
+  | err => rfl
+  | panic => rfl
+  | ok x =>
+    obtain ⟨body, rest⟩ := x
+    simp only [EA.parseUTCTime]
+    cases hsec : parse layoutUTCSec body with
+    | some r1 =>
+      have hmin := utcsec_excludes_min hsec
+      simp only [hmin, EA.reserialises, Bool.false_or]
+      split <;> rename_i hc
+      · have : (format layoutUTCSec r1 == body) = false := by simpa using hc
+        simp [this]
+      · have : (format layoutUTCSec r1 == body) = true := by simpa using hc
+        simp only [this, Bool.not_true, Bool.false_eq_true, if_false]
+        split <;> rfl
+    | none =>
+      cases hmin : parse layoutUTCMin body with
+      | some r1 =>
+        simp only [EA.reserialises, Bool.false_or]
+        split <;> rename_i hc
+        · have : (format layoutUTCMin r1 == body) = false := by simpa using hc
+          simp [this]
+        · have : (format layoutUTCMin r1 == body) = true := by simpa using hc
+          simp only [this, Bool.not_true, Bool.false_eq_true, if_false]
+          split <;> rfl
+      | none => rfl
+
+open ZV.Time in
+/-- `ReadASN1UTCTime`: the consumed bytes are one canonical element, the time lies in 1950..2049, and a content
+    in the form with seconds is exactly what encoding/asn1's `appendUTCTime` writes for the decoded time
+    (zcrypto's cryptobyte has no `AddASN1UTCTime`). -/
+theorem cb_utctime_canonical (s : Bytes) (t : GoTime) (rest : Bytes) (h : Time.CB.readUTCTime s = .ok (t, rest)) :
+    ∃ body pre, CB.element 0x17 body = .ok pre ∧ s = pre ++ rest ∧ 1950 ≤ t.year ∧ t.year < 2050 ∧
+      EA.parseUTCTime false body = .ok t ∧ (parse layoutUTCMin body = none → EA.appendUTCTime t = .ok body) := by
+  rw [cb_utctime_eq_ea] at h
+  split at h
+  · rename_i body rest' hr
+    split at h
+    · rename_i t' hp
+      simp only [Res.ok.injEq, Prod.mk.injEq] at h
+      obtain ⟨h1, h2⟩ := h
+      subst h1; subst h2
+      obtain ⟨pre, hq1, hq2⟩ := cb_readASN1Tag_canonical hr
+      have hw := ea_utctime_window false body t' hp
+      exact ⟨body, pre, hq1, hq2, hw.1, hw.2, hp, fun hmin => ea_utctime_canonical body t' hp hmin⟩
+    · simp at h
+    · simp at h
+  · simp at h
+  · simp at h
+
+example : Time.CB.readUTCTime [0x17, 0x0d, 0x34, 0x39, 0x31, 0x32, 0x33, 0x31, 0x32, 0x33, 0x35, 0x39, 0x35, 0x39, 0x5a, 0xff] =
+    .ok ({ unix := 2524607999, off := 0 }, [0xff]) := by decide +kernel
+
+open ZV.Time in
+/-- **accepted times are whole seconds** (all three strict decoders): `time.Parse` itself reads a fractional
+    second that is not in the layout (`20240101000000.5Z` parses), but the re-serialisation test only lets through
+    texts that `Format` reproduces, and those contain no comma or period. -/
+theorem strict_times_whole_seconds (s : Bytes) (t : GoTime) :
+    (∀ rest, Time.CB.readGeneralizedTime s = .ok (t, rest) → t.nsec = 0) ∧
+    (EA.parseGeneralizedTime false s = .ok t → t.nsec = 0) ∧
+    (EA.parseUTCTime false s = .ok t → t.nsec = 0) := by
+  refine ⟨?_, ?_, ?_⟩
+  · intro rest h
+    unfold Time.CB.readGeneralizedTime at h
+    split at h
+    · rename_i body rest' hr
+      split at h
+      · simp at h
+      · rename_i res hp
+        split at h
+        · simp at h
+        · rename_i hfmt
+          simp only [Res.ok.injEq, Prod.mk.injEq] at h
+          rw [← h.1]
+          exact whole_seconds_gen hp (by simpa using hfmt)
+    · simp at h
+    · simp at h
+  · intro h
+    unfold EA.parseGeneralizedTime at h
+    split at h
+    · simp at h
+    · rename_i ret hp
+      split at h
+      · simp at h
+      · rename_i hre
+        simp only [Res.ok.injEq] at h
+        rw [← h]
+        exact whole_seconds_gen hp (by simpa [EA.reserialises] using hre)
+  · intro h
+    unfold EA.parseUTCTime at h
+    have tail : ∀ (layout : List Std) (ret : GoTime), ret.nsec = 0 →
+        (if (!EA.reserialises false layout ret s) = true then Res.err
+         else if ret.year ≥ 2050 then Res.ok (addYears ret (-100)) else Res.ok ret) = Res.ok t → t.nsec = 0 := by
+      intro layout ret hn h
+      split at h
+      · simp at h
+      · split at h <;> simp only [Res.ok.injEq] at h <;> rw [← h]
+        · exact hn
+        · exact hn
+    cases hmin : parse layoutUTCMin s with
+    | some r1 =>
+      simp only [hmin] at h
+      exact tail _ _ (whole_seconds_utcmin hmin) h
+    | none =>
+      cases hsec : parse layoutUTCSec s with
+      | some r1 =>
+        simp only [hmin, hsec] at h
+        have hre : format layoutUTCSec r1 = s := by
+          split at h
+          · simp at h
+          · rename_i hc; simpa [EA.reserialises] using hc
+        exact tail _ _ (whole_seconds_utcsec hsec hre) h
+      | none => simp [hmin, hsec] at h
+
+/-- `time.Parse` alone does accept the fraction (the permissive mode returns it) -/
+example : ZV.Time.EA.parseGeneralizedTime true
+    [0x32, 0x30, 0x32, 0x34, 0x30, 0x31, 0x30, 0x31, 0x30, 0x30, 0x30, 0x30, 0x30, 0x30, 0x2e, 0x35, 0x5a] =
+      .ok { unix := 1704067200, off := 0, nsec := 500000000 } ∧
+    ZV.Time.EA.parseGeneralizedTime false
+    [0x32, 0x30, 0x32, 0x34, 0x30, 0x31, 0x30, 0x31, 0x30, 0x30, 0x30, 0x30, 0x30, 0x30, 0x2e, 0x35, 0x5a] = .err := by
+  decide +kernel
 
 end ZV.C19
